@@ -462,6 +462,16 @@ class SymExec(object):
         if isinstance(recv, dict) and meth == "get" and args:
             k = args[0] if isinstance(args[0], (str, int)) else self.text(args[0])      # same key normal form as e_Dict / e_Subscript
             return recv.get(k, args[1] if len(args) > 1 else None)
+        if isinstance(recv, dict) and meth == "setdefault" and args:
+            k = args[0] if isinstance(args[0], (str, int)) else self.text(args[0])
+            return recv.setdefault(k, args[1] if len(args) > 1 else None)
+        if isinstance(recv, dict) and meth == "pop" and args:
+            k = args[0] if isinstance(args[0], (str, int)) else self.text(args[0])
+            if k in recv or len(args) > 1:
+                return recv.pop(k, args[1] if len(args) > 1 else None)
+        if isinstance(recv, dict) and meth == "update" and len(args) == 1 and isinstance(args[0], dict) and not kwargs:
+            recv.update(args[0])
+            return None
         last = name.split(".")[-1] if name else None
         mod = name.split(".")[0] if name and "." in name else None
         num = lambda v: isinstance(v, (sp.Basic, int, float, Opaque)) and not isinstance(v, bool)
